@@ -33,7 +33,15 @@ RULE_OPS = tuple(
 # a further rule (default do_start_stop_run) for a sink that is known already: the fallback ("F") or
 # the sink of the most recent rule ("last")
 SAME_OPS = tuple([("rule_prefix_same", p, t, d) for p in ("0", "1") for t in ("F", "last") for d in (False, True)] + [("rule_id_same", "a", t, d) for t in ("F", "last") for d in (False, True)])
-FALLBACKS = ("none", "fallback+startstop", "fallback-nostartstop")
+FALLBACKS = ("none", "fallback+startstop", "fallback-nostartstop", "falsyfallback+startstop")
+
+
+class FalsyStream(rec.Stream):
+    """A recording sink that is falsy while it is empty (it has a length: a collecting sink)."""
+
+    def __len__(self):
+        return len(self.log)
+
 
 
 def payload(rc, tid):
@@ -57,7 +65,7 @@ class Model:
         self.ids = {}  # test id -> sink index
         self.registered = []  # sink indices receiving start/stop; "F" = fallback
         self.fallback = fallback != "none"
-        if fallback == "fallback+startstop":
+        if fallback in ("fallback+startstop", "falsyfallback+startstop"):
             self.registered.append("F")
         self.in_run = False
         self.nrules = 0
@@ -86,11 +94,11 @@ class Model:
 
 class Impl:
     def __init__(self, fallback):
-        self.fb = rec.Stream() if fallback != "none" else None
+        self.fb = (FalsyStream() if fallback.startswith("falsy") else rec.Stream()) if fallback != "none" else None
         if fallback == "none":
             self.router = StreamResultRouter()
         else:
-            self.router = StreamResultRouter(self.fb, do_start_stop_run=(fallback == "fallback+startstop"))
+            self.router = StreamResultRouter(self.fb, do_start_stop_run=fallback.endswith("+startstop"))
         self.sinks = []
         self.rejected = []  # sinks of add_rule calls that the router refused
 
